@@ -185,11 +185,101 @@ class Ctx:
                         return True
         return False
 
+    # ---- structured strings: an atom may carry a shape  ("pre", literal_prefix, inner)  or  ("split3", sep, a, b, rest)
+    def shaped(self, kind, *parts):
+        """the (interned) atom for a structured string built from parts"""
+        parts = tuple(self.atom_of(p) if not isinstance(p, str) or i >= 1 and kind == "pre" and False else p for i, p in enumerate(parts))
+        if kind == "pre":
+            prefix, inner = parts[0], self.atom_of(parts[1])
+            if inner.text is not None: return self.atom_of(prefix + inner.text)
+            for a in self.atoms:
+                r = self.find(a)
+                if r.shape is not None and r.shape[0] == "pre" and r.shape[1] == prefix and self.find(r.shape[2]) is inner: return r
+            a = self.new_atom(f"{prefix}{inner.name}")
+            a.shape = ("pre", prefix, inner)
+            a.extra["touched"] = True
+            return a
+        raise Unsupported(f"shape {kind}")
+
+    def _excluded(self, atom, key):
+        return key in atom.extra.get("not", ())
+
+    def _exclude(self, atom, key):
+        atom.extra.setdefault("not", set()).add(key)
+
+    def str_starts_with(self, s, prefix):
+        if isinstance(s, str): return s.startswith(prefix)
+        x = self.atom_of(s)
+        if x.text is not None: return x.text.startswith(prefix)
+        if x.shape is not None:
+            if x.shape[0] == "pre":
+                if x.shape[1] == prefix: return True
+                if x.shape[1].startswith(prefix): return True
+                if not prefix.startswith(x.shape[1]): return False
+                return self.str_starts_with(x.shape[2], prefix[len(x.shape[1]):])
+            raise Unsupported(f"starts_with on a {x.shape[0]}-shaped string")
+        if self._excluded(x, ("pre", prefix)): return False
+        if self.choose([True, True], f"{x.name} starts_with {prefix!r}?") == 0:
+            inner = self.new_atom(f"{x.name}[{len(prefix)}..]")
+            x.shape = ("pre", prefix, inner)
+            return True
+        self._exclude(x, ("pre", prefix))
+        return False
+
+    def str_after_prefix(self, s, n):
+        """s[n..] for a string known to start with an n-byte literal prefix"""
+        if isinstance(s, str): return s[n:] if len(s.encode()) >= n else None
+        x = self.atom_of(s)
+        if x.text is not None: return x.text[n:] if len(x.text.encode()) >= n else None
+        if x.shape is not None and x.shape[0] == "pre" and len(x.shape[1].encode()) == n: return self.find(x.shape[2])
+        raise Unsupported(f"slice [{n}..] of unstructured string {x!r}")
+
+    def str_split3(self, s, sep):
+        """splitn(3, sep): returns the list of parts (1, 2 or 3)"""
+        if isinstance(s, str): return s.split(sep, 2)
+        x = self.atom_of(s)
+        if x.text is not None: return x.text.split(sep, 2)
+        if x.shape is not None:
+            if x.shape[0] == "split3" and x.shape[1] == sep: return [self.find(p) for p in x.shape[2:]]
+            if x.shape[0] == "pre":
+                # assumption (stated in the spec): a literal-prefixed identifier such as cw20:<address> contains no separator
+                return [x]
+        if self._excluded(x, ("split3", sep)): return [x]
+        if self.choose([True, True], f"{x.name} has 3 {sep!r}-parts?") == 0:
+            parts = [self.new_atom(f"{x.name}.part{i}") for i in range(3)]
+            x.shape = ("split3", sep) + tuple(parts)
+            return parts
+        self._exclude(x, ("split3", sep))
+        return [x]
+
     def str_eq(self, a, b):
         if isinstance(a, str) and isinstance(b, str): return a == b
         x, y = self.atom_of(a), self.atom_of(b)
         if x is y: return True
         if self._known_distinct(x, y): return False
+        # structured strings are compared structurally
+        for p, q in ((x, y), (y, x)):
+            if p.shape is not None and p.shape[0] == "pre":
+                pre = p.shape[1]
+                if q.text is not None:
+                    if not q.text.startswith(pre): return False
+                    r = self.str_eq(p.shape[2], q.text[len(pre):])
+                    if r: self._merge(p, q)
+                    return r
+                if q.shape is not None and q.shape[0] == "pre" and q.shape[1] == pre:
+                    r = self.str_eq(p.shape[2], q.shape[2])
+                    if r: self._merge(p, q)
+                    else:
+                        self.diseq.append((p, q)); self.assume(p.rank != q.rank)
+                    return r
+                if self._excluded(q, ("pre", pre)):
+                    return False
+            if p.shape is not None and p.shape[0] == "split3" and q.shape is not None and q.shape[0] == "split3" and p.shape[1] == q.shape[1]:
+                r = all(self.str_eq(u, v) for u, v in zip(p.shape[2:], q.shape[2:]))
+                if r: self._merge(p, q)
+                return r
+        if x.shape is not None and y.shape is not None and x.shape[0] != y.shape[0]:
+            raise Unsupported(f"comparison of differently structured strings {x!r} / {y!r}")
         if self._sym_pruned(x, y):
             self.diseq.append((x, y)); self.assume(x.rank != y.rank)
             return False
